@@ -651,6 +651,25 @@ func c14ExecInBubble(t *testing.T, p *Plan) (r *c14Result) {
 				}
 				settle()
 				observe(fmt.Sprintf("op %d grow", oi), true)
+			case "overfull":
+				// the log grows and publishes that checkpoint with 100 signature lines (its own and 99 of parties the witness does
+				// not know): whatever the witness makes of it, it serves something readable on the witnessed history; the log then
+				// grows again with an ordinary checkpoint, which the witness must reach like any other
+				st.mu.Lock()
+				was := st.xsigs
+				st.size += op.D
+				st.xsigs = 99
+				st.mu.Unlock()
+				m.logf("op %d log %d grows by %d -> %d, published with 100 signature lines", oi, l, op.D, st.size)
+				settle()
+				observe(fmt.Sprintf("op %d (a checkpoint with 100 signature lines is on offer)", oi), false)
+				st.mu.Lock()
+				st.size += op.MV
+				st.xsigs = was
+				st.mu.Unlock()
+				r.stats.Fired["overfull_checkpoint_published"]++
+				settle()
+				observe(fmt.Sprintf("op %d ordinary growth after a checkpoint with 100 signature lines", oi), true)
 			case "restart":
 				if err, ok := m.stop(); !ok {
 					add("not_caught_up", "main_did_not_stop", fmt.Sprintf("op %d: Main did not return within 120 simulated seconds of its context ending (%v)", oi, err))
@@ -959,7 +978,7 @@ func init() {
 	register(&Scenario{
 		Prop:  "C14",
 		Level: "exploration",
-		Rule:  "the real omniwitness.Main inside a synctest bubble, configured through ConfigLogs with 1..4 stub logs of the sumdb and tiles feeder types served from the reference tree (every tile path validated by the stub), in-memory or file-backed SQLite storage, the real http.Server on an in-memory listener, simnet as the only outbound network; seeded scripts of growth steps (sizes crossing 255/256/257 and 65535/65536), growth under windows of network faults (drop, 5xx, 404, truncation, corruption, garbage, stall past the client timeout, delay), graceful restarts on the same SQLite file, and finally a fork (larger, same size, smaller), half of the time while reads of the stored checkpoint fail intermittently with a status-less storage error; oracle through HTTP GET of the running service: caught up within 3 poll intervals of simulated time once faults stopped, validly cosigned, never backwards across restarts, stays on the witnessed history after a fork, log list consistent; non-trivial = at least one growth crossed a tile boundary or happened under faults, or a restart/fork happened; distinct = distinct (feeder kind, final size) and script shapes",
+		Rule:  "the real omniwitness.Main inside a synctest bubble, configured through ConfigLogs with 1..4 stub logs of the sumdb and tiles feeder types served from the reference tree (every tile path validated by the stub), in-memory or file-backed SQLite storage, the real http.Server on an in-memory listener, simnet as the only outbound network; seeded scripts of growth steps (sizes crossing 255/256/257 and 65535/65536), growth under windows of network faults (drop, 5xx, 404, truncation, corruption, garbage, stall past the client timeout, delay), graceful restarts on the same SQLite file, one published checkpoint that already carries 100 signature lines followed by ordinary ones, and finally a fork (larger, same size, smaller), half of the time while reads of the stored checkpoint fail intermittently with a status-less storage error; oracle through HTTP GET of the running service: caught up within 3 poll intervals of simulated time once faults stopped, validly cosigned, never backwards across restarts, stays on the witnessed history after a fork, log list consistent; non-trivial = at least one growth crossed a tile boundary or happened under faults, or a restart/fork happened; distinct = distinct (feeder kind, final size) and script shapes",
 		Gen: func(r *Rng, tier string, n uint64) *Plan {
 			p := &Plan{Scenario: "main"}
 			nl := r.Range(1, 4)
@@ -1020,6 +1039,14 @@ func init() {
 			}
 			if p.Cfg.Store == "sqlite" && r.Chance(0.3) {
 				p.Ops = append(p.Ops, Op{K: "writefault", L: r.IntN(nl), D: uint64(r.IntN(300)), MV: r.Uint64()})
+			}
+			if r.Chance(0.15) {
+				// once, the log publishes a checkpoint that already carries as many signature lines as the note format allows; then
+				// ordinary ones again
+				p.Ops = append(p.Ops, Op{K: "overfull", L: r.IntN(nl), D: uint64(Pick(r, 1, 2, 40, 256)), MV: uint64(Pick(r, 1, 2, 300))})
+				if p.Cfg.Store == "sqlite" && r.Bool() {
+					p.Ops = append(p.Ops, Op{K: "restart", Ms: 1000}, Op{K: "grow", L: int(p.Ops[len(p.Ops)-1].L), D: uint64(r.Range(1, 300))})
+				}
 			}
 			if p.Cfg.Store == "sqlite" && r.Chance(0.25) {
 				p.Ops = append(p.Ops, Op{K: "killcommit", L: r.IntN(nl), D: uint64(r.IntN(300))})
